@@ -447,6 +447,44 @@ def wrapped_doc(r):
     return "\n".join(out)
 
 
+def long_run_doc(r):
+    """one construct whose repeatable part is repeated 9 / 17 / 33 / 65 / 129 times (just beyond small powers of two): lines of a
+    paragraph, term lines above a definition, definitions below a term, rows and columns of a table, items of a list, lines of a
+    quote, continuation lines of a footnote, reference definitions and their uses, headings, cells ..."""
+    k = r.choice([9, 17, 33, 65, 129])
+    w = lambda: words(r, 1, 3)  # noqa
+    kind = r.randrange(14)
+    if kind == 0:
+        return "".join(w() + "\n" for _ in range(k)) + ": " + w() + "\n"                       # k term lines, one definition
+    if kind == 1:
+        return w() + "\n" + "".join(": " + w() + "\n" for _ in range(k))                       # one term, k definitions
+    if kind == 2:
+        return "".join(w() + "\n" for _ in range(k)) + r.choice(["", "===\n", "a | b\n-|-\n1|2\n", "- x\n", "> q\n", "[^n]: x\n", "*[AB]: y\n"])  # a long paragraph, then a block
+    if kind == 3:
+        return "| a | b |\n|---|---|\n" + "".join("| %s | %s |\n" % (w(), w()) for _ in range(k))
+    if kind == 4:
+        c = min(k, 33)
+        return "|" + "|".join(" h%d " % i for i in range(c)) + "|\n|" + "|".join("---" for _ in range(c)) + "|\n|" + "|".join(" c " for _ in range(c)) + "|\n"
+    if kind == 5:
+        m = r.choice(["- ", "1. ", "* ", "- [ ] "])
+        return "".join(m + w() + "\n" + ("" if r.random() < 0.7 else "\n") for _ in range(k))
+    if kind == 6:
+        return "".join("> " + w() + "\n" for _ in range(k)) + r.choice(["", "lazy " + w() + "\n"])
+    if kind == 7:
+        return "x[^n]\n\n[^n]: " + w() + "\n" + "".join("    " + w() + "\n" for _ in range(k))
+    if kind == 8:
+        return "".join("[r%d]: /u%d\n" % (i, i) for i in range(k)) + "\n" + " ".join("[r%d]" % i for i in range(k)) + "\n"
+    if kind == 9:
+        return "".join("#" * (1 + i % 6) + " h%d\n\n" % i for i in range(k))
+    if kind == 10:
+        return " ".join(r.choice(["*e*", "`c`", "[l](/u)", "~~s~~", "==m==", "x^2^", "<b>", "&amp;", "https://e.x/a", "[^n]", "AB"]) for _ in range(k)) + "\n\n[^n]: z\n*[AB]: t\n"
+    if kind == 11:
+        return "```\n" + "".join(w() + "\n" for _ in range(k)) + "```\n"
+    if kind == 12:
+        return "".join("*[K%d]: t%d\n" % (i, i) for i in range(k)) + "\n" + " ".join("K%d" % i for i in range(k)) + "\n"
+    return "".join(":" * 3 + "{note} T%d\n" % i + w() + "\n" + ":" * 3 + "\n\n" for i in range(min(k, 33)))
+
+
 TAB_WS = ["\t", "\t\t", " \t", "  \t", "\t ", " \t\t", "   \t", "    ", "\t    ", " ", "  \t\t"]
 
 
